@@ -22,7 +22,10 @@ RULE = ('three streams. paths: every string built from <= 5 components of {a, ab
         '{a, ab, sub, ., .., "", proj, projx, lib, init, ?, a;b} with/without leading/trailing "/", x 5 load-path '
         'settings (default, environment variable, relative --lua-path, absolute, ../lib) x 3 working directories x '
         'main named absolutely/relatively; tool.main([build ...]) under the same wrappers, canary files outside every '
-        'root. Each run: outcome / resolved path / probe sequence vs the extracted model, and the extracted monitor '
+        'root. graph: a main file and up to 10 library files (a, b, c, sub/a, sub/b, sub/sub/a, lib/a, lib/b, init, a/init), each '
+        'with 0-3 require() lines over those names (+ missing, .., "", /a, ./a, ...), 7 load-path settings, 3 working '
+        'directories: the complete sequence of isfile probes and opens of tool.main([build ...]) vs the model of the whole '
+        'recursion (Model/RequireWalk.v). Each run: outcome / resolved path / probe sequence vs the extracted model, and the extracted monitor '
         '(Spec only) on the recorded accesses. distinct+non-trivial = distinct (stream, string, placement, load path) '
         'whose run touched the file system beyond the named files')
 CLAIM = dict(
@@ -34,7 +37,9 @@ CLAIM = dict(
           "P8IncludeOutsideOfAllowedDirectory), C12_include_ok_spec; C12_require_contained (every candidate handed to "
           "os.path.isfile / open lies under the directory its load-path pattern names, for every string the filter "
           "lets through and every load path made of patterns DIR/NAME?SUFFIX), C12_require_contained_any_path, "
-          "C12_require_default_path (default path: under the requiring file's directory), C12_require_filter_spec; "
+          "C12_require_default_path (default path: under the requiring file's directory), C12_require_filter_spec, "
+          "C12_require_model_holds (for every package graph, file system, sane load path and depth, the trace of the "
+          "model of the whole _evaluate_require recursion satisfies the predicate the monitor evaluates); "
           "C12_abspath_location (the posixpath model's normpath/abspath preserve the POSIX location and leave no "
           "'..'); C12_monitor / C12_monitor_growing (soundness of the extracted monitors). "
           "C12_include_prefix_variant_refuted and C12_require_variants_refuted: the statements are false for the "
@@ -43,7 +48,8 @@ CLAIM = dict(
           "filter, the regex sources, PICO8_CART_PATHS, DEFAULT_LUA_PATH, split/replace characters are regenerated "
           "from the source and pinned (a reverted fix breaks a pin and the search replays the witness); the path "
           "functions are compared with posixpath on ~250,000 inputs; the resolution logic with file.from_file / "
-          "tool.main(build) in a sandbox tree with canary files; the Spec-only monitor runs on the recorded accesses."),
+          "tool.main(build) in a sandbox tree with canary files, incl. the complete probe/open trace of random package "
+          "graphs; the Spec-only monitor runs on the recorded accesses."),
     note=("Trusted: Coq kernel+VM, extraction, OCaml glue, the in-process wrappers around builtins.open / "
           "os.path.isfile / os.path.exists (harness/props/fsobs.py), the modelling of posixpath (correspondence-tested), "
           "POSIX resolution without symbolic links as the meaning of 'located under' (Spec/PathSpec.v). "
@@ -213,15 +219,15 @@ def generate(tier, rng):
 
 
 GRAPH_NAMES = ['a', 'b', 'c', 'sub/a', 'sub/b', 'sub/sub/a', 'lib/a', 'lib/b', 'init', 'a/init']
-GRAPH_REQS = ['a', 'b', 'c', 'sub/a', 'sub/b', 'sub/sub/a', 'lib/a', 'lib/b', 'init', 'missing', 'a/init', 'sub',
+GRAPH_REQS = ['a', 'b', 'c', 'a', 'b', 'sub/a', 'sub/b', 'lib/a', 'init', 'sub/sub/a', 'lib/b', 'missing', 'a/init', 'sub',
               '..', '', '/a', './a', 'a/..', 'b.lua', 'sub/', '?', 'a;b']
 
 
 def gen_graph(rng):
     files = {}
     for name in GRAPH_NAMES:
-        if rng.random() < 0.7:
-            k = rng.choice([0, 0, 1, 1, 2, 3])
+        if rng.random() < 0.9:
+            k = rng.choice([0, 0, 0, 1, 1, 2])
             pool = GRAPH_REQS[:9] if rng.random() < 0.8 else GRAPH_REQS
             files[name + '.lua'] = [rng.choice(pool) for _ in range(k)]
     main = [rng.choice(GRAPH_REQS[:9] if rng.random() < 0.85 else GRAPH_REQS) for _ in range(rng.choice([1, 1, 2, 3]))]
